@@ -183,13 +183,16 @@ JudgeLine(e, st) ==
         checked == obsAcc /\ classViol = {} /\ r0 \in {"complete", "incomplete"} /\ e.r = r0
         wronglyRejected == o.class \in {"open", "continue", "deliver", "single"} /\ ~needDecode
                            /\ e.r \in {"err_nmea", "err_checksum"}
+        \* the sentence-level type is judged whenever a sentence comes back for a well-formed line, whatever else
+        \* is wrong with the outcome
+        mtAlways == IF obsAcc /\ ln.ok /\ ~checked /\ ~(mtOk \/ mtDev) THEN V("C19", "sentence message type") ELSE {}
     IN  IF unspec
         THEN \* never judged (DESIGN 5.3, 5.4) except for totality; the code's own reading is the reference
              [viol |-> (IF e.r = "panic" THEN V("C01", "panic: " \o e.pmsg) ELSE {}) \cup agreeViol,
               devs |-> {}, st |-> o.st,
               lost |-> ~((obsAcc /\ e.r = r0) \/ (~obsAcc /\ (r0 \in {"err_nmea", "err_checksum"} \/ needDecode))),
               class |-> o.class, unspec |-> TRUE]
-        ELSE [viol |-> classViol \cup agreeViol \cup (IF checked THEN fieldViol ELSE {}),
+        ELSE [viol |-> classViol \cup agreeViol \cup mtAlways \cup (IF checked THEN fieldViol ELSE {}),
               devs |-> IF checked THEN fieldDevs ELSE {},
               \* a line the specification accepts but the code rejected with an error: by C17 a rejected
               \* line leaves no trace, so tracking continues from the unchanged state (if it did leave one,
